@@ -21,6 +21,14 @@ CHECKS = {
             "DESIGN.md 3/C03",
             "Generated search: every stream the crate writes (narrowed to what the reference can decode at all) must be accepted, fully consumed and decoded to the input by liblzma; every stream liblzma writes (presets, custom options with all match finders, filter chains, check types, multi-block via full flush and via the MT encoder with size fields, .lzma, raw LZMA2+filters, wrapped LZIP) must decode with the crate to the input.",
             "liblzma 5.8 static is the trusted reference; no independent LZIP encoder exists in the sandbox (wrapped LZMA1 streams are used); the narrowing of ours->ref is listed in the evidence assumptions."),
+    "C12": ("exploration", "model-based property testing: generated sequences of streams/members and paddings, liblzma (LZMA_CONCATENATED) and the concatenation of contents as reference model",
+            "DESIGN.md 3/C12",
+            "Generated sequences of 1-6 XZ streams (written by the crate or by liblzma) with valid and invalid stream padding, multi-stream on and off, and of 1-8 LZIP members with optional trailing bytes (ST reader, MT reader on real threads); the reference decides well-formedness, the model is the concatenation of the contents.",
+            "liblzma decides which paddings are well-formed; the LZIP model is the harness's own concatenation."),
+    "C16": ("exploration", "property-based testing: generated stream + trailing bytes + read-size sequences, position oracle on the underlying Cursor",
+            "DESIGN.md 3/C16",
+            "Generated valid LZMA (five framings), LZMA2 and single-stream XZ streams followed by nothing / zeros / random bytes / another stream, read with generated buffer-size sequences; after end of stream the source must stand exactly at the first trailing byte and the decoded bytes must equal the input.",
+            "A reader told the size of a stream that also carries an end marker may leave the marker unread (as liblzma does); that case only requires position <= stream end."),
 }
 
 NOT_YET = {
